@@ -134,10 +134,20 @@ def check_mc(inp):
             obs_fair = observe_fair(kripke, K, F, naming)
         except Exception:
             obs_fair = None
+        # The checkers label the fair states on a CLONE of K, whose set/dict iteration order (and
+        # with it the SCC representative the pinned get_fair_states depends on) need not be the
+        # order of the caller's object.  The fair-state set used inside the call is therefore one
+        # of: what the caller's object reports, any output the pinned get_fair_states can produce
+        # under some iteration order, or (after a repair of KF-C15-1 alone) the correct set.
+        masks = masks_of(K, F)
+        cands = set(frozen.admissible_fair_sets(M, masks))
+        cands.add(ref.exists(M, ('set', M.full), masks))
         if obs_fair is not None and obs_fair[0] == 'set':
-            pred = getattr(frozen, checker.lower())(M, top, obs_fair[1])
-            got = out[:2] if out[0] == 'exc' else out
-            if got == pred:
+            cands.add(obs_fair[1])
+        got = out[:2] if out[0] == 'exc' else out
+        preds = [getattr(frozen, checker.lower())(M, top, fs) for fs in sorted(cands)]
+        if True:
+            if got in preds:
                 if checker == 'CTL':
                     kid = 'KF-C15-3' if out[0] == 'exc' else 'KF-C15-2'
                 elif checker == 'LTL':
